@@ -153,6 +153,8 @@ class LockFut:
         if mx.locked_by == s.cur:
             m.event('deadlock', s.cur, mx.label)
             raise Panic('task %s locks %s twice (deadlock)' % (s.cur, mx.label))
+        # blocked behind another holder: visible to the lock-discipline oracle (with the locks the waiter itself holds)
+        m.event('lock_wait', s.cur, mx.label, tuple(mutex_held_by(m, s.cur)), mx.locked_by)
         s.register(mx.waiters)
         return pending()
 
